@@ -541,9 +541,30 @@ def accumulation_functions(prog):
     return out
 
 
-def rule_defout(ctx, cfg_name, prog, name_filter=None, rule='R-DEFOUT'):
+def curve_result_methods(prog):
+    """out-of-place operations of the curve layer: non-const, non-static void member functions of the point classes that take at least
+    one argument (the result is *this)"""
+    out = []
+    for f in prog.functions.values():
+        if 'body' not in f or not f.get('method') or f.get('static_method') or f.get('const_method'):
+            continue
+        if not f['l'][0].startswith(('include/bls12_381/curve.hpp', 'src/bls12_381/curve')):
+            continue
+        if not f.get('params') or (f.get('ret') or {}).get('k') not in (None, 'void'):
+            continue
+        if not any((p['t'].get('pointee') or {}).get('k') in ('record', 'union') for p in f['params']):
+            continue
+        # the group operations of the generic point classes (Projective<F>, Affine<F>): add, multiply2, negate, conversions, copy
+        par = f.get('parent') or f['qn'].rsplit('::', 1)[0]
+        if not (par.startswith(NS + 'Projective<') or par.startswith(NS + 'Affine<')):
+            continue
+        out.append((f, 'this'))
+    return sorted(out, key=lambda fa: fa[0]['qn'])
+
+
+def rule_defout(ctx, cfg_name, prog, name_filter=None, rule='R-DEFOUT', functions=None, what=None):
     n = 0
-    for (f, acc) in accumulation_functions(prog):
+    for (f, acc) in (accumulation_functions(prog) if functions is None else functions):
         if name_filter and not name_filter(f):
             continue
         n += 1
@@ -569,6 +590,12 @@ def rule_defout(ctx, cfg_name, prog, name_filter=None, rule='R-DEFOUT'):
 
         def writes(node):
             for x in walk(node.ast):
+                if functions is not None and x.get('k') == 'call' and x.get('this') is not None and \
+                   pr.norm_obj(pr.canon(x['this'])).startswith('this.') and not (prog.callee(x, f) or {}).get('const_method'):
+                    return True             # a coordinate of the result is written
+                if functions is not None and x.get('k') == 'call' and x.get('name') in ('memcpy', 'memmove', 'memset') and x.get('args') and \
+                   pr.norm_obj(pr.canon(x['args'][0])).lstrip('&').split('.')[0] == 'this':
+                    return True             # the result object is overwritten as a whole
                 if x.get('k') == 'call' and x.get('this') is not None and pr.canon(x['this']) in accs and \
                    not (prog.callee(x, f) or {}).get('const_method'):
                     return True
@@ -606,18 +633,23 @@ def rule_defout(ctx, cfg_name, prog, name_filter=None, rule='R-DEFOUT'):
             elif nd.kind == 'cond' and writes(nd):
                 w2 = True
             for (y, lab) in nd.succ:
+                w3 = w2
                 if nd.kind == 'cond' and lab is not None:
                     e = strip(nd.ast)
                     if e.get('k') == 'ref' and e.get('id') in tracked:
                         v = env2[tracked.index(e['id'])]
                         if v is not None and v != lab:
                             continue
-                st = (y, tuple(env2), w2)
+                    if functions is not None and e.get('k') == 'bin' and e.get('op') in ('==', '!='):
+                        sides = {pr.canon(e['lhs']), pr.canon(e['rhs'])}
+                        if 'this' in sides and any(x.startswith('&P:') for x in sides) and lab == (e['op'] == '=='):
+                            w3 = True       # the result IS the argument on this edge: nothing to write
+                st = (y, tuple(env2), w3)
                 if st not in seen:
                     seen.add(st)
                     work.append(st)
-        ctx.ob(rule, bad is None, 'defout|%s' % strip_tmpl(f['qn']), loc_str(f),
-               '%s accumulates into %s inside a digit loop but there is a path to the end on which %s is never written (all digits zero / '
-               'no iteration): the caller gets stale contents instead of the identity' % (f['qn'], acc, acc), cfg=cfg_name,
+        ctx.ob(rule, bad is None, 'defout|%s' % (strip_tmpl(f['qn']) if functions is None else f['qn'][:110]), loc_str(f),
+               (what or '%s accumulates into %s inside a digit loop but there is a path to the end on which %s is never written (all digits zero / '
+                'no iteration): the caller gets stale contents instead of the identity') % (f['qn'], acc, acc), cfg=cfg_name,
                sample=dict(config=cfg_name, function=f['qn'][:100], accumulator=acc, states=len(seen)))
     return n
